@@ -1,5 +1,6 @@
 """C20 — OpenCL and Numba backends define the same kernels and shape functions."""
 
+import re as _re
 import ast
 
 from .. import cfront, kernels as K, shapesets as S
@@ -112,6 +113,23 @@ def run(ctx):
     r_const.check(not cproblems, "bempp_base_types.h constants", "bempp_cl/core/sources/include/bempp_base_types.h", "-",
                   cproblems[0][2] if cproblems else 0, "constant literal %s" % (cproblems[0][0] if cproblems else ""),
                   "literal(s) differ from the exact value: %s" % cproblems)
+    # the precision-dependent type aliases: every REALTYPE<n> of the single-precision block is float<n>, of the
+    # double-precision block double<n> (local points, geometry and the vectorised kernels are declared with them; a
+    # float2 local point in the double build rounds every quadrature point to single precision)
+    r_ty = ctx.rule("CL-TYPES", "bempp_base_types.h: in the PRECISION == 0 block REALTYPE<n> is float<n>, in the PRECISION == 1 block double<n>, for n in {1, 2, 3, 4, 8, 16}", 12)
+    trel, tds = cfront.precision_typedefs(ctx)
+    base = {0: "float", 1: "double"}
+    seen_t = set()
+    for line, prec, ty, alias in tds:
+        mt = _re.match(r"REALTYPE(\d*)$", alias)
+        if not mt or prec not in base:
+            continue
+        seen_t.add((prec, mt.group(1)))
+        r_ty.check(ty == base[prec] + mt.group(1), "PRECISION == %d: %s" % (prec, alias), trel, "-", line, "typedef %s %s" % (ty, alias),
+                   "in the %s-precision block %s is `%s`, expected `%s%s`: values of that type are stored with the other precision" % ("double" if prec else "single", alias, ty, base[prec], mt.group(1)))
+    missing_t = sorted({(p_, n_) for p_ in (0, 1) for n_ in ("", "2", "3", "4", "8", "16")} - seen_t)
+    if missing_t:
+        raise AnalysisError("bempp_base_types.h: REALTYPE aliases not found for %s" % missing_t)
     fns = cfront.parse_file(ctx, KH)
     clreg = cl_registry(ctx)
     nreg = K.registries(ctx)["kernel_functions_regular"]
